@@ -161,6 +161,16 @@ def replay(prop, rep):
     from engine.core import setup_repo_path
     setup_repo_path()
     r = rep["replay"]
+    if prop == "C10":
+        pattern = r["pattern"].split("  >>  ")[0]
+        out = B.record_chunk([(pattern, r["program"])], "sub" if "  >>  " in r["pattern"] else None)[0]
+        ws = [w for w in out["witnesses"] + [w for w in out.get("sub", []) if "error" not in w] if w["m"]]
+        if not ws:
+            print("no witnesses")
+            return 0
+        acc, rej, _ = tlc.validate_traces("TraceCait", "TraceCait.cfg", [{k: w[k] for k in ("P", "S", "m", "sym", "exps")} for w in ws])
+        print(json.dumps({"witnesses": len(ws), "rejected": [(tid, clause_names(mask)) for tid, pos, mask in rej]}))
+        return 1 if rej else 0
     out = B.record_chunk([(r["pattern"], r["program"])], None)[0]
     print(json.dumps({"n": out["n"], "error": out.get("error")}, indent=1))
     return 1 if out["n"] <= 0 else 0
